@@ -14,9 +14,10 @@ import (
 func RunC03(tier string) int {
 	run := report.New("C03", tier, "exploration",
 		"(a) dag.Walker in synctest bubbles under the race detector over seeded graph families x selections x latencies x GOMAXPROCS, judged on a logical-clock log kept at the callback boundary (start only after every dependency ended ok, at most one call per node); "+
-			"(c) maps.MutexMap Lock/Unlock histories from 3-7 goroutines on 3 names checked with porcupine against a per-name mutex; (b) the real binary on latency-shaped generated graphs with num_workers 1..8: order and overlap of S/E lines in the O_APPEND trace, executions per target, and the dependency-output digests each command recorded; "+
+			"(d) worker.TaskWorkerPool in synctest bubbles under the race detector: 1-4 workers, up to 44 callers of Run arriving in bursts/waves with task latencies from microseconds to 5 virtual seconds (longer than the pool's one-second enqueue backstop), judged at the task boundary (never more than num_workers tasks inside, each task once) and the caller boundary (own result or error returned); (c) maps.MutexMap Lock/Unlock histories from 3-7 goroutines on 3 names checked with porcupine against a per-name mutex; (b) the real binary on latency-shaped generated graphs with num_workers 1..8: order and overlap of S/E lines in the O_APPEND trace, executions per target, and the dependency-output digests each command recorded; "+
 			"non-trivial = walker case with failures/cancel/registration delay, or process build with >= 2 executed commands; distinct = shape + observed order")
 	walkerPart(run, tier, "C03")
+	poolPart(run, tier)
 	st, err := e1.Prepare(run, false)
 	if err != nil {
 		run.Infra(err.Error())
@@ -111,4 +112,53 @@ var mutexModel = porcupine.Model{
 		}
 		return true, held
 	},
+}
+
+// poolPart: the worker pool bound, judged inside the task functions under virtual time.
+func poolPart(run *report.Run, tier string) {
+	err := walkerDriverSweep(run, "TestPool", tierN(tier, 600, 12000), 0, true, func(o Outcome) {
+		run.Eval(1)
+		run.Count("pool_cases", 1)
+		if o.Crash != "" && o.Crash != "race-only" {
+			run.Violation("pool "+o.Crash, fmt.Sprintf("worker pool case %s ended with %s: %s", caseBrief(o), o.Crash, firstLines(o.Detail, 6)),
+				map[string]any{"case": o.Case, "detail": o.Detail})
+			return
+		}
+		for _, rc := range o.Races {
+			run.Count("race_reports_other(lead)", 1)
+			run.Set("race_lead:"+rc.Sig, true)
+		}
+		if o.Res == nil {
+			return
+		}
+		var r struct {
+			Case struct {
+				Workers int    `json:"workers"`
+				Tasks   int    `json:"tasks"`
+				Latency string `json:"latency"`
+				Arrival string `json:"arrival"`
+			} `json:"case"`
+			Violations []string `json:"violations"`
+			MaxRunning int      `json:"max_running"`
+			Ran        int      `json:"ran"`
+			Waited1s   int      `json:"callers_waiting_over_1s"`
+		}
+		if json.Unmarshal(o.Res, &r) != nil {
+			return
+		}
+		run.Count("pool_tasks_run", r.Ran)
+		run.Count("pool_callers_that_waited_over_1s_for_a_worker", r.Waited1s)
+		if r.MaxRunning == r.Case.Workers {
+			run.Count("pool_cases_that_saturated_the_pool", 1)
+		}
+		if r.Case.Tasks > 2*r.Case.Workers {
+			run.Nontrivial(fmt.Sprintf("pool|w%d|%s|%s|max%d|late%v", r.Case.Workers, r.Case.Latency, r.Case.Arrival, r.MaxRunning, r.Waited1s > 0))
+		}
+		for _, v := range r.Violations {
+			run.Violation("pool "+v, fmt.Sprintf("worker pool case %s: %s", caseBrief(o), v), map[string]any{"case": o.Case, "result": o.Res})
+		}
+	})
+	if err != nil {
+		run.Infra(err.Error())
+	}
 }
